@@ -105,6 +105,16 @@ where
 {
     /// reserve a robin-hood table capable of holding at least `sz` elements
     pub fn new() -> BackedRobinhoodTable<'a, T> {
+        #[cfg(rsdd_verif)]
+        if let Some(cap) = crate::verif::TABLE_CAPACITY.with(|c| c.get()) {
+            return BackedRobinhoodTable {
+                tbl: vec![HashTableElement::default(); cap],
+                alloc: Bump::new(),
+                cap,
+                len: 0,
+                hits: 0,
+            };
+        }
         let v: Vec<HashTableElement<T>> = vec![HashTableElement::default(); DEFAULT_SIZE];
 
         BackedRobinhoodTable {
